@@ -30,20 +30,32 @@ class V(object):
         return '%s%s' % (self.kind, extra if extra else '')
 
 
+REGIME = {'nmin': 2, 'exact': None}     # channel count regime: n >= nmin, or exactly `exact`
+
+
+def _conc(t):
+    if REGIME['exact'] is not None and t[1] not in (INF, -INF):
+        return (0, t[0] * REGIME['exact'] + t[1])
+    if REGIME['exact'] is not None:
+        return (0, t[1])
+    return t
+
+
 def lin_lt(a, b):
-    """(a1*n+b1) < (a2*n+b2) for all n >= 1?  True / False / None(depends on n)"""
-    (a1, b1), (a2, b2) = a, b
+    """(a1*n+b1) < (a2*n+b2) for all n of the regime?  True / False / None(depends on n)"""
+    (a1, b1), (a2, b2) = _conc(a), _conc(b)
     if b1 == -INF or b2 == INF:
         return True if not (b1 == -INF and b2 == -INF) and not (b1 == INF) else None
     if b1 == INF or b2 == -INF:
         return False
     da, db = a2 - a1, b2 - b1
+    n0 = REGIME['nmin']
     if da > 0:
-        return True if da + db > 0 else None
+        return True if da * n0 + db > 0 else None
     if da == 0:
         return db > 0
     # da < 0 : true for small n only
-    return False if da + db <= 0 else None
+    return False if da * n0 + db <= 0 else None
 
 
 def lin_le(a, b):
@@ -450,7 +462,8 @@ def column_kinds():
                     {'scalar-identity'} if inr else {'raise'}))
         out.append(('numpy-integer ' + tag, intval('npint', lo, hi, tag), 'position' if inr else 'out of bounds',
                     {'scalar-identity'} if inr else {'raise'}))
-    out.append(('py-bool', V('bool', lo=(0, 0), hi=(0, 1), tag='bool', orig='bool'), '0-d mask (adds an axis)', {'raise', 'native'}))
+    out.append(('py-bool False', V('bool', lo=(0, 0), hi=(0, 0), tag='bool', orig='bool'), '0-d mask (adds an axis)', {'raise', 'native'}))
+    out.append(('py-bool True', V('bool', lo=(0, 1), hi=(0, 1), tag='bool', orig='bool'), '0-d mask (adds an axis)', {'raise', 'native'}))
     out.append(('str known name', V('str', known=True), 'name -> position', {'scalar-name'}))
     out.append(('str unknown name', V('str', known=False), 'no such column', {'raise'}))
     out.append(('slice', V('slice'), 'range of columns', {'slice'}))
@@ -469,7 +482,8 @@ def column_kinds():
         out.append(('%s[int >= n]' % cont, V(cont, items=[ok_i, bad_i]), 'out of bounds', {'raise'}))
         out.append(('%s[int < -n]' % cont, V(cont, items=[low_i]), 'out of bounds', {'raise'}))
         out.append(('%s[unknown name]' % cont, V(cont, items=[V('str', known=True), V('str', known=False)]), 'no such column', {'raise'}))
-        out.append(('%s[py-bool]' % cont, V(cont, items=[V('bool', lo=(0, 0), hi=(0, 1), tag='bool', orig='bool')] * 2),
+        out.append(('%s[py-bool]' % cont, V(cont, items=[V('bool', lo=(0, 0), hi=(0, 0), tag='bool', orig='bool'),
+                                                         V('bool', lo=(0, 1), hi=(0, 1), tag='bool', orig='bool')]),
                     'boolean mask', {'raise', 'iter-mask'}))
         out.append(('%s[float]' % cont, V(cont, items=[V('float')]), 'invalid index', {'raise'}))
     out.append(('int-ndarray in range', V('intarray', classes={'in[0,n-1]', 'in[-n,-1]'}), 'positions', {'iter-positions', 'native-positions'}))
@@ -557,8 +571,19 @@ def classify(cx, itp, res, colkind, colval, evval):
 
 
 def evaluate(cx):
-    """Run the whole table; returns list of rows."""
+    """Run the whole table under both channel-count regimes (n = 1 and n >= 2); returns list of rows."""
     itp = Interp(cx)
+    rows = []
+    for regime, label in (({'nmin': 2, 'exact': None}, 'n>=2'), ({'nmin': 1, 'exact': 1}, 'n=1')):
+        REGIME.update(regime)
+        try:
+            rows += _evaluate(cx, itp, label)
+        finally:
+            REGIME.update({'nmin': 2, 'exact': None})
+    return itp, rows
+
+
+def _evaluate(cx, itp, regime):
     rows = []
     for cname, cval, meaning, allowed in column_kinds():
         for ename, evalue in event_kinds():
@@ -567,8 +592,8 @@ def evaluate(cx):
             label, extra = classify(cx, itp, res, cname, cval, evalue)
             # a single int event with a single position returns a scalar: same acceptance as scalar-identity
             rows.append({'column': cname, 'event': ename, 'numpy_meaning': meaning, 'outcome': label, 'extra': extra,
-                         'allowed': sorted(allowed), 'ok': label in allowed, 'node': res.get('node')})
-    return itp, rows
+                         'allowed': sorted(allowed), 'ok': label in allowed, 'node': res.get('node'), 'regime': regime})
+    return rows
 
 
 def run_table(cx, rule='KINDS'):
@@ -576,15 +601,15 @@ def run_table(cx, rule='KINDS'):
     fn = itp.fn['__getitem__']
     tab = []
     for r in rows:
-        tab.append('%-34s x %-9s -> %-18s %s (NumPy: %s)' % (r['column'], r['event'], r['outcome'], r['extra'], r['numpy_meaning']))
+        tab.append('[%s] %-34s x %-9s -> %-18s %s (NumPy: %s)' % (r['regime'], r['column'], r['event'], r['outcome'], r['extra'], r['numpy_meaning']))
         # the outcome must not depend on the event kind except scalar-vs-branch: report per (column, event)
-        fn.ob(rule, 'column key %s with event key %s: %s' % (r['column'], r['event'], ' or '.join(r['allowed'])), r['ok'],
+        fn.ob(rule, '[%s channels] column key %s with event key %s: %s' % (r['regime'], r['column'], r['event'], ' or '.join(r['allowed'])), r['ok'],
               r['node'] if isinstance(r['node'], ast.AST) else fn.ast,
               detail='' if r['ok'] else 'outcome is %s %s, but NumPy reads this key as: %s' % (r['outcome'], r['extra'], r['numpy_meaning']),
-              key='%s|%s' % (r['column'], r['event']))
+              key='%s|%s|%s' % (r['regime'], r['column'], r['event']))
     cx.tables['KINDS outcome table'] = tab
     cx.exhaustive = True
-    cx.floor(rule, len(rows), 150, 'kind pairs')
+    cx.floor(rule, len(rows), 300, 'kind pairs')
     # whole-key kinds other than a 2-tuple go to NumPy untouched
     for name, key in (('int', intval('int', (0, 0), (0, 0), 'const')), ('slice', V('slice')), ('bool-mask', V('boolarray')),
                       ('Ellipsis', V('ellipsis')), ('None', V('none')), ('1-tuple', V('tuple', items=[V('slice')])),
